@@ -178,7 +178,7 @@ def run_tlc(module_path, cfg_path, workdir, out_path, workers=8, simulate=None, 
         raise ToolError("TLC error on %s: %s\n%s" % (os.path.basename(cfg_path), error, "".join(tail[-60:])))
     if rc != 0 and not violated:
         raise ToolError("TLC exit status %s on %s\n%s" % (rc, os.path.basename(cfg_path), "".join(tail[-40:])))
-    if generated == 0 and not simulate:
+    if generated == 0 and not simulate and not violated:
         raise ToolError("TLC reported no states on %s\n%s" % (os.path.basename(cfg_path), "".join(tail[-40:])))
     return res
 
